@@ -88,7 +88,7 @@ def reviewed : List Review := [
   ⟨13773756441018, .guarded, "", "args.len() is compared with 1 at the top of the closure"⟩,  -- index inspect_bytecode primitives/meta_ops.rs:21
   ⟨949954895358, .guarded, "", "args.len() is compared with 1 at the top of the closure"⟩,  -- index memory_address primitives/meta_ops.rs:63
   ⟨9362414077891, .guarded, "", "args.len() is compared with 1 at the top of the closure"⟩,  -- index assert_truthy primitives/meta_ops.rs:135
-  ⟨14546425288285, .reachable, "assert-panics", "(assert! #f) panics by design"⟩,  -- panic assert_truthy primitives/meta_ops.rs:138
+  ⟨14546425288285, .reachable, "assert-builtin-panics", "(assert! #f) panics by design"⟩,  -- panic assert_truthy primitives/meta_ops.rs:138
   ⟨13929617616863, .guarded, "", "args.len() is compared with 1 at the top of the closure"⟩,  -- index poll_value primitives/meta_ops.rs:182
   ⟨17005184427510, .benign, "", "Gc::unwrap (gc.rs: clones the value out of the Gc; not Option::unwrap)"⟩,  -- unwrap poll_value primitives/meta_ops.rs:183
   ⟨15366691937204, .guarded, "", "args.len() is compared with 1 at the top of the closure"⟩,  -- index block_on_with_local_executor primitives/meta_ops.rs:201
@@ -222,7 +222,7 @@ def reviewed : List Review := [
   ⟨11668053948357, .guarded, "", "negative bounds rejected first"⟩,  -- as_usize bounds primitives/strings.rs:1346
   ⟨9968649466261, .guarded, "", "negative bounds rejected first"⟩,  -- as_usize bounds primitives/strings.rs:1357
   ⟨6153550135042, .guarded, "", "negative bounds rejected first"⟩,  -- as_usize bounds primitives/strings.rs:1362
-  ⟨9830297837429, .reachable, "string-join-third-argument", "(string-join (list \"a\") \",\" \"x\") hits todo!()"⟩,  -- todo string_join primitives/strings.rs:1513
+  ⟨9830297837429, .reachable, "string-join-extra-argument-todo", "(string-join (list \"a\") \",\" \"x\") hits todo!()"⟩,  -- todo string_join primitives/strings.rs:1513
   ⟨15747814775732, .guarded, "", "arity attribute of the registration (min 1) is checked by the generated wrapper before the body"⟩,  -- index symbol_to_string primitives/symbols.rs:122
   ⟨10031278883744, .guarded, "", "arity attribute of the registration (min 1) is checked by the generated wrapper before the body"⟩,  -- index symbol_to_string primitives/symbols.rs:125
   ⟨12781932033823, .guarded, "", "arity attribute of the registration (min 1) is checked by the generated wrapper before the body"⟩,  -- index symbol_to_string primitives/symbols.rs:128
@@ -253,8 +253,8 @@ def reviewed : List Review := [
   ⟨5282050727264, .benign, "", "upgrade of the heap reference of a live value: fails only if the collector freed reachable storage (C04)"⟩,  -- unwrap mut_vec_length primitives/vectors.rs:936
   ⟨6566794319626, .guarded, "", "arity attribute of the registration (min 2) is checked by the generated wrapper before the body"⟩,  -- index vec_range primitives/vectors.rs:1070
   ⟨13051514080163, .guarded, "", "arity attribute of the registration (min 2) is checked by the generated wrapper before the body"⟩,  -- index vec_range primitives/vectors.rs:1070
-  ⟨8155224182277, .reachable, "range-vec-negative-bound", "a negative bound becomes ~2^64: (range-vec 0 -1) never returns and eats memory"⟩,  -- as_usize vec_range primitives/vectors.rs:1073
-  ⟨17365417754872, .reachable, "range-vec-negative-bound", "a negative bound becomes ~2^64: (range-vec 0 -1) never returns and eats memory"⟩,  -- as_usize vec_range primitives/vectors.rs:1073
+  ⟨8155224182277, .reachable, "negative-count-becomes-huge", "a negative bound becomes ~2^64: (range-vec 0 -1) never returns and eats memory"⟩,  -- as_usize vec_range primitives/vectors.rs:1073
+  ⟨17365417754872, .reachable, "negative-count-becomes-huge", "a negative bound becomes ~2^64: (range-vec 0 -1) never returns and eats memory"⟩,  -- as_usize vec_range primitives/vectors.rs:1073
   ⟨2144821357372, .guarded, "", "arity attribute of the registration (min 2) is checked by the generated wrapper before the body"⟩,  -- index mut_vec_get primitives/vectors.rs:1097
   ⟨1850706224051, .guarded, "", "arity attribute of the registration (min 2) is checked by the generated wrapper before the body"⟩,  -- index mut_vec_get primitives/vectors.rs:1098
   ⟨9159985708504, .guarded, "", "i < 0 and i >= len rejected above"⟩,  -- as_usize mut_vec_get primitives/vectors.rs:1110
@@ -336,7 +336,7 @@ def reviewed : List Review := [
   ⟨9865499776771, .guarded, "", "args.len() < 2 rejected at the top"⟩,  -- index error_with_src_loc steel_vm/primitives.rs:2767
   ⟨15693207756456, .guarded, "", "args.len() != 2 rejected at the top"⟩,  -- index error_from_error_with_span steel_vm/primitives.rs:2786
   ⟨4014433439351, .guarded, "", "args.len() != 2 rejected at the top"⟩,  -- index error_from_error_with_span steel_vm/primitives.rs:2794
-  ⟨12151792861830, .reachable, "raise-error-without-arguments", "no arity check: (raise-error) indexes args[0]"⟩,  -- index raise_error_from_error steel_vm/primitives.rs:2802
+  ⟨12151792861830, .reachable, "builtin-indexes-args-without-arity-check", "no arity check: (raise-error) indexes args[0]"⟩,  -- index raise_error_from_error steel_vm/primitives.rs:2802
   ⟨1391634798742, .dead, "", "never registered, never called"⟩   -- todo _lookup_doc steel_vm/primitives.rs:2816
 ]
 
